@@ -98,6 +98,10 @@ def run_c01(ctx):
     for c in wc: c["wide"] = True
     cases += wc
     cases = chain_preludes(cases) + edit_twins(ctx) + narrow_min_cases(ctx) + shared_depth_cases(ctx) + magnitude_cases(ctx)
+    for k, c in enumerate(cases):
+        if k % 5 == 4 and "style" not in c and "via" not in c:
+            c["style"] = 1                      # leaves that are instances of a puan.variable sub class (the model is evaluated before it is encoded)
+    ctx.region("leaves_of_a_variable_sub_class", len(cases) // 5)
     ctx.pmap(drivers.drv_to_poly, _stamp(cases, "drv_to_poly"))
     if not q: repo_test_events(ctx, ['to_poly'])
     ctx.validate()
@@ -621,9 +625,10 @@ POLY_CATALOG = [
     _P([[-1, -2, -1, 0], [0, 0, 1, 1]], [(0, 1), (0, 1), (-1, 1)]),                # nothing forced at once
     _P([[0, 1, 1, -2], [-1, -1, -1, 2], [1, 0, 0, 1]], [(0, 1), (0, 1), (0, 1)]),  # big-M shaped rows of a conjunction, its variable asserted
     _P([[0, 2, -3], [-4, -2, 1]], [(-1, 2), (0, 2)]),                              # non-unit coefficients, negative lower bound
+    _P([[1, 1, 1], [1, 1, 1], [0, 1, -1], [2, 1, 1]], [(0, 1), (0, 1)]),           # the same row twice
 ]
 POLY_CALLS = ["A", "b", "to_linalg", "column_bounds", "row_bounds", "ncomb", "tighten", "red_rows", "red_cols", "rr_and_c", "sat", "sep", "rowsep", "idx",
-              "copy", "rewrap", "neglectable", "reduce_cols", "reduce_rows", "reduce_both", "edit", "widen", "reduce_cols_q", "reduce_rows_q", "reduce_both_q"]
+              "copy", "rewrap", "neglectable", "reduce_cols", "reduce_rows", "reduce_both", "edit", "widen", "reduce_cols_q", "reduce_rows_q", "reduce_both_q", "assign_lo", "drop_none"]
 
 def poly_histories(ctx, maxlen=3, sample=None):
     """histories of public calls on one polyhedron object: the machine PuanPolyAPI is model-checked (reductions compose, labels kept,
@@ -663,6 +668,8 @@ def random_polys(ctx, n, required=("rows>=3", "cols>=3", "nonunit_coef", "zero_c
             for lo, hi in bounds: size *= hi - lo + 1
             if size <= 600: break
         rows = [[rng.randint(-4, 4)] + [rng.choice([-3, -2, -1, -1, 0, 0, 1, 1, 2, 3]) for _ in range(nc)] for _ in range(nr)]
+        if k % 9 == 4 and nr >= 2:
+            rows[-1] = list(rows[0]); ctx.region("repeated_row")          # the same inequality twice
         if k % 3 == 0:
             # big-M sized coefficients, right-hand sides that divide exactly or almost (rounding in the tightening)
             ctx.region("big_coef")
@@ -907,7 +914,19 @@ def run_c13(ctx):
         if not any(v for row in x for v in row): continue
         ctx.region("wide_values")
         cases.append({"x": x, "kind": rng.choice(["2d0", "2d1"]), "src": "random"})
-    for f in ("empty_middle_row", "cancelling_row", "rows>=3", "3d", "wide_values"):
+    # vectors with the axis named explicitly (repeated priorities below a higher one); arrays of a narrow integer type that hold that
+    # type's least value as a priority
+    for k in range(40 if q else 400):
+        n = rng.randint(2, 7)
+        v = [rng.choice([0, 1, 1, -1, 2, -2, 3, 5]) for _ in range(n)]
+        if len(set(abs(i) for i in v if i)) >= 2 and any(v.count(i) > 1 for i in v if i): ctx.region("vector_with_axis_and_repeats")
+        cases.append({"x": v, "kind": "flat0", "src": "random"})
+    for dtn, lo in (("int8", -128), ("int16", -32768), ("int32", -2147483648)):
+        for x in ([[lo, 1, 2]], [[lo, 1, 2], [0, 5, lo]], [[1, lo, 0], [2, 0, 0], [0, 0, -3]], [[lo + 1, lo, -lo - 1]]):
+            cases.append({"x": x, "kind": "2d0", "src": "handmade", "dtype": dtn}); cases.append({"x": x, "kind": "2d1", "src": "handmade", "dtype": dtn})
+            cases.append({"x": x[0], "kind": "flat", "src": "handmade", "dtype": dtn})
+    ctx.region("narrow_type_minimum_as_priority")
+    for f in ("empty_middle_row", "cancelling_row", "rows>=3", "3d", "wide_values", "vector_with_axis_and_repeats"):
         if not ctx.regions.get(f): raise Machinery("random arrays did not reach region " + f)
     ctx.pmap(drivers.drv_compress, _stamp(cases, "drv_compress"))
     if not q: repo_test_events(ctx, ['compress'])
@@ -1085,6 +1104,9 @@ RULES = lambda: [_R("Any", LEAF("p"), LEAF("q"), id="P1"), _cc("ccAny", LEAF("p"
                  _cc("ccXor", LEAF("r"), LEAF("s"), d="r"), _R("Imply", _R("All", LEAF("a")), LEAF("q"), id="P3"),
                  _R("Any", LEAF("a"), LEAF("q"), id="X"), _R("AtMost", LEAF("p"), LEAF("q"), LEAF("r"), v=1)]
 
+# a plain, unnamed All of rules handed to add() as ONE rule
+BUNDLE = lambda: _R("All", _R("Any", LEAF("p"), LEAF("q"), id="P7"), LEAF("r"))
+
 ALL_OPS = ["evaluate", "evaluate_all", "assume", "reduce", "negate", "errors", "to_json", "to_b64", "to_poly", "flatten", "flags",
            "cfg_poly", "default_prios", "leafs", "select", "add", "reload_b64", "solve", "builtin", "select_raise"]
 
@@ -1207,6 +1229,7 @@ def run_c09(ctx):
     pairs = [(cat["M1"], cat["CfgD"]), (cat["CfgD"], cat["CfgP"]), (cat["Cfg3"], cat["Cfg4"]), (cat["G1"], cat["M2"]), (cat["M3"], cat["M3"]), (cat["M4"], cat["M1"])]
     if not q: pairs += [(cat["CfgP"], cat["CfgD"]), (cat["Cfg4"], cat["Cfg3"]), (cat["CfgG"], cat["M1"]), (cat["M1"], cat["M1"])]
     rules = RULES()[:2] if q else RULES()[:4]
+    rules = rules + [BUNDLE()]
     # the intended design is pure; the as-implemented machine (named deviation) is not: TLC finds the purity counterexample itself
     api_histories(ctx, "API_as_implemented", pairs[:2], ["evaluate", "assume", "reduce"], 2, rules, deviations=["assume_own_id_leak"], expect_violation="Purity")
     states = api_histories(ctx, "API_intended", pairs, ALL_OPS, 2, rules)
@@ -1267,6 +1290,7 @@ def run_c18(ctx):
     rules += [_R("AtMost", LEAF("p"), LEAF("q"), v=2, id="T1"), _R("AtLeast", LEAF("p"), LEAF("r"), v=0, s=1, id="T2"),   # rules that always hold
               _R("AtMost", LEAF("a"), LEAF("b"), v=3)]
     rules += [LEAF("p"), LEAF("c"), LEAF("X")]            # bare items as "rules": a new one, one that is a top-level item already, one named like a rule
+    rules += [BUNDLE()]
     if q:                                                   # the quick tier keeps one representative of each kind of rule
         drop = [json.dumps(x, sort_keys=True) for x in (_R("Any", LEAF("p"), LEAF("r"), id="c"), _R("AtLeast", LEAF("p"), LEAF("r"), v=0, s=1, id="T2"),
                                                         _R("AtMost", LEAF("a"), LEAF("b"), v=3), LEAF("X"))]
